@@ -193,3 +193,128 @@ class MultiIndexValidate(Contract):
 
 
 CONTRACTS = [MultiIndexValidate]
+
+
+# ---------------------------------------------------------------------------------------------------------
+# MultiIndexBackend.coerce_dtype: the coerced MultiIndex has the DATA's levels, in the data's order
+# ---------------------------------------------------------------------------------------------------------
+class LevelArray:
+    __pyvc_symbolic__ = True
+
+    def __init__(self, level, coerced_by=None):
+        self.level, self.coerced_by = level, coerced_by
+
+    @property
+    def array(self):
+        return self
+
+    def to_numpy(self, *a, **k):
+        return self
+
+    def pyvc_class(self):
+        import pandas as pd
+
+        return pd.Index
+
+
+class MIndexData:
+    """a pd.MultiIndex seen through its level names and get_level_values(i)"""
+
+    __pyvc_symbolic__ = True
+
+    def __init__(self, names):
+        self.names = list(names)
+        self.levels_read = []
+
+    def pyvc_class(self):
+        import pandas as pd
+
+        return pd.MultiIndex
+
+    def get_level_values(self, i):
+        self.levels_read.append(i)
+        return LevelArray(i)
+
+
+COERCE_LAYOUTS = {"data_order": ["a", "b"], "swapped": ["b", "a"], "unnamed": [None, None], "three_levels_rotated": ["c", "a", "b"]}
+
+
+class MultiIndexCoerceDtype(Contract):
+    """coerce_dtype(multi_index, schema): level k of the result is level k of the DATA (coerced by the Index schema that names it, or as
+    it is), whatever the order in which the schema declares its Index components (`ordered=False`); names are the data's names; a failed
+    coercion of any level is reported as SchemaErrors.  Layouts: data levels in declaration order / swapped / unnamed / three rotated."""
+
+    target = f"{MIB}.coerce_dtype"
+    raises = (SchemaErrors,)
+    check_frame = False
+    split = {"layout": list(COERCE_LAYOUTS)}
+
+    def setup(self, I):
+        PL.install(I)
+        import pandas as pd
+        from pandera.api.dataframe.components import ComponentSchema
+
+        def coerce(I_, self_obj, arr):
+            p = cur()
+            k = p.choose([("coerced", None), ("SchemaError", None)], f"coerce_dtype(level {arr.level})")
+            if k == 1:
+                p.ghost["level_failed"] = True
+                raise PyExc(I_.make_exc(SchemaError))
+            return LevelArray(arr.level, coerced_by=fld(self_obj, "name"))
+
+        I.models[id(ComponentSchema.coerce_dtype)] = coerce
+
+        def from_arrays(I_, *args, names=None, **kw):
+            arrays = args[-1]  # (called as a bound classmethod: the class may come first)
+            cur().ghost["built"] = (list(arrays), names)
+            return SAny(name="coerced_multiindex")
+
+        I.models[id(pd.MultiIndex.from_arrays.__func__)] = from_arrays
+        I.models[id(pd.MultiIndex.from_arrays)] = from_arrays
+
+    def make_args(self):
+        from pandera.backends.pandas.components import MultiIndexBackend as B
+
+        names = COERCE_LAYOUTS[self.fixed.get("layout", "data_order")]
+        decl = ["a", "b", "c"][: len(names)]
+        unnamed = all(n is None for n in names)
+        lv = ListObj()
+        for k, nm in enumerate(decl):
+            ix = index_ref().fresh(f"schema.indexes[{k}]")
+            ix.attrs["name"] = None if unnamed else nm
+            ix.attrs0["name"] = ix.attrs["name"]
+            lv.append(ix)
+        lv.pre = True
+        schema = T.Ref(MultiIndex, _coerce=T.Bool).fresh("schema")
+        for a, v in (("indexes", lv), ("names", [fld(i, "name") for i in lv])):
+            schema.attrs[a] = v
+            schema.attrs0[a] = v
+        data = MIndexData(names)
+        cur().ghost.update(names=names, decl=decl, levels=lv)
+        return {"self": T.Ref(B).fresh("self"), "check_obj": data, "schema": schema}
+
+    def call_target(self, I, fn, a):
+        return I.call(fn, [a["self"], a["check_obj"]], {"schema": a["schema"]})
+
+    def ensures(self, result, old, self_, check_obj, schema):
+        g = cur().ghost
+        built = g.get("built")
+        if built is None:
+            # no coercion requested: the index is returned as it is
+            return {"without_coercion_the_index_itself": result is check_obj}
+        arrays, names = built
+        n = len(g["names"])
+        out = {"one_array_per_data_level": len(arrays) == n and all(isinstance(a, LevelArray) for a in arrays)}
+        if out["one_array_per_data_level"]:
+            out["level_k_of_the_result_is_level_k_of_the_data"] = [a.level for a in arrays] == list(range(n))
+            want = {k: (g["names"][k] if g["names"][k] is not None else None) for k in range(n)}
+            out["each_level_coerced_only_by_the_index_schema_that_names_it"] = all(a.coerced_by is None or a.coerced_by == want[a.level] for a in arrays)
+        out["names_are_the_datas_names"] = names is check_obj.names
+        out["returns_only_when_every_level_coerced"] = not g.get("level_failed", False)
+        return out
+
+    def on_raise(self, exc, old, self_, check_obj, schema):
+        return {"schema_errors_only_for_a_failed_level_coercion": cur().ghost.get("level_failed", False) is True and exc.attrs.get("data") is check_obj}
+
+
+CONTRACTS.append(MultiIndexCoerceDtype)
